@@ -14,11 +14,17 @@
 (***************************************************************************)
 EXTENDS Naturals, FiniteSets, Sequences, TLC, Json
 
-CONSTANT Hist
+CONSTANT Hist,
+         PayloadBoundToTx   \* TRUE: a payload is handed out only for the transaction it was stored for (what C15 states).
+                            \* FALSE = the code: the payload store is keyed by payload hash, so ANY transaction on the DAG that
+                            \* declares the hash of a stored private payload unlocks it for the peers on ITS OWN list (finding F28)
 
 \* unauth: anonymous connection; claimed_listed: the connection carries a listed node DID that was never verified
 \* (Authenticated = FALSE); auth_nodid: authenticated flag without a node DID; auth_unlisted / auth_listed: verified DID
-PeerClass == {"unauth", "claimed_listed", "auth_nodid", "auth_unlisted", "auth_listed"}
+\* auth_alias_listed: verified DID that is NOT on the list of the transaction t whose payload H holds, but that is on the list of a
+\* second transaction t2 on H's DAG which declares the same payload hash (anybody who saw t's header can publish such a t2 and
+\* encrypt its list to H's public key-agreement key); the peer asks for the payload of t2
+PeerClass == {"unauth", "claimed_listed", "auth_nodid", "auth_unlisted", "auth_listed", "auth_alias_listed"}
 ListKnown == {"known_nopayload", "new"}      \* transaction in an incoming TransactionList: already stored (payload missing) | new
 ListPayload == {"matching", "mismatching", "empty"}
 KeySit    == {"can_decrypt", "not_recipient", "key_missing", "no_node_did"}
@@ -44,6 +50,7 @@ PayloadQueryAnswer(pc, ks, tc) ==
     ELSE IF pc \in {"unauth", "claimed_listed"} THEN "empty"  \* connection not authenticated (whatever DID it claims)
     ELSE IF ks \in {"no_node_did", "key_missing"} THEN "empty" \* decryptPAL fails
     ELSE IF ks = "not_recipient" THEN "empty"                \* PAL cannot be decrypted: not meant for us
+    ELSE IF pc = "auth_alias_listed" THEN (IF PayloadBoundToTx THEN "empty" ELSE "payload")  \* listed on t2, not on t
     ELSE IF pc # "auth_listed" THEN "empty"                  \* peer's node DID is not on the list
     ELSE "payload"
 
